@@ -338,6 +338,20 @@ def mon_C04(ctx):
                 if s['state'] == 'hopeful':
                     ctx.bad('hopeful-with-quota-passed-over-at-transfer', reaches_quota(ctx, num(ctx, s['vote']), q))
         i += 1
+    # whoever is declared elected by the election step has reached the quota (the end-of-count clean-up elects the rest)
+    if method in ('wigm', 'meek'):
+        for i, A in enumerate(acts):
+            if A['tag'] != 'elect' or i == 0:
+                continue
+            if any(x in A['msg'] for x in ('remaining', 'Elect all', 'Elect pending')):
+                continue
+            ref = acts[i - 1]
+            newly = [c for c, s_ in A['cstate'].items() if s_['state'] == 'elected' and ref['cstate'][c]['state'] == 'hopeful']
+            for c in newly:
+                ctx.reach('election-checked')
+                # tallies do not change between the snapshot before the election step and the 'elect' action itself
+                v = num(ctx, A['cstate'][c]['vote'])
+                ctx.bad('elected-without-reaching-the-quota', z3.Not(reaches_quota(ctx, v, num(ctx, A['quota']))))
     # nobody defeated holds a quota in the final snapshot (Minneapolis final-round losers keep their votes but are below it too)
     if acts and method == 'wigm':
         fin = acts[-1]
